@@ -198,9 +198,9 @@ def gen_comm_case(rng):
     opt = rng.choice([0, 0, 1, 2])
     edits = []
     final = list(pats)
-    if rng.random() < 0.25:
-        k = rng.choice(["append", "remove", "replace"])
-        arg = [normalize(gen_pattern(rng, vals)) for _ in range(rng.choice([1, 2]))]
+    if rng.random() < 0.35:
+        k = rng.choice(["append", "append", "remove", "replace"])
+        arg = [normalize(gen_pattern(rng, vals)) for _ in range(rng.choice([1, 2, 3]))]
         if k == "remove" and final and rng.random() < 0.7:
             arg = [rng.choice(final)]
         edits.append((k, arg))
